@@ -73,13 +73,8 @@ theorem rebuildX_epicId (t : Task) (h : TaskOK' t) : (rebuildX t).epicId = t.epi
       exact he.1.symm
     · exact (h.epicFixed hep).symm
 
-theorem rebuildX_claimedBy (t : Task) (h : TaskOK' t) : (rebuildX t).claimedBy = t.claimedBy := by
-  simp only [rebuildX]
-  split
-  · rename_i hc
-    simp only [Bool.and_eq_true] at hc
-    exact (h.cleared hc.2).symm
-  · rfl
+/-- the claimant survives for every task: the state is replayed before the claim (`fix: compact writes a task's state before its claim`) -/
+theorem rebuildX_claimedBy (t : Task) : (rebuildX t).claimedBy = t.claimedBy := rfl
 
 theorem rebuildX_lastClaim (t : Task) (h : TaskOK' t) (hc : t.claimedBy ≠ "") : (rebuildX t).lastClaim = t.lastClaim := by
   have : emitClaim t = true := by simpa [emitClaim] using hc
@@ -88,7 +83,7 @@ theorem rebuildX_lastClaim (t : Task) (h : TaskOK' t) (hc : t.claimedBy ≠ "") 
 
 theorem obs_rebuildX (t : Task) (h : TaskOK' t) : obsTask (rebuildX t) = obsTask t := by
   have h1 := rebuildX_epicId t h
-  have h2 := rebuildX_claimedBy t h
+  have h2 := rebuildX_claimedBy t
   have h3 := rebuildX_updatedAt t h
   simp only [obsTask, h1, h2, h3]
   by_cases hc : t.claimedBy = ""
@@ -136,7 +131,7 @@ theorem emitEpic_rebuildX (t : Task) : emitEpic (rebuildX t) = emitEpic t := by
   · simp [emitEpic, rebuildX, hep]
 
 theorem emitClaim_rebuildX (t : Task) (h : TaskOK' t) : emitClaim (rebuildX t) = emitClaim t := by
-  unfold emitClaim; rw [rebuildX_claimedBy t h]
+  unfold emitClaim; rw [rebuildX_claimedBy t]
 
 theorem optT_pick_idem (e : Bool) (lX upd : Time) (he : e = true) : pickTime (optT e (pickTime lX upd)) upd = pickTime lX upd := by
   simp [optT, he, pickTime_idem]
@@ -144,7 +139,7 @@ theorem optT_pick_idem (e : Bool) (lX upd : Time) (he : e = true) : pickTime (op
 theorem updEvents_rebuildX (t : Task) (h : TaskOK' t) : updEvents (rebuildX t) = updEvents t := by
   unfold updEvents
   rw [emitTitle_rebuildX, emitBody_rebuildX, emitEpic_rebuildX, emitClaim_rebuildX t h, emitState_rebuildX,
-    rebuildX_updatedAt t h, rebuildX_epicId t h, rebuildX_claimedBy t h]
+    rebuildX_updatedAt t h, rebuildX_epicId t h, rebuildX_claimedBy t]
   congr 1; congr 1; congr 1; congr 1; congr 1
   all_goals split
   all_goals first | rfl | skip
@@ -158,7 +153,7 @@ theorem maxL5_eq (a b c d e f : Nat) :
     max (max (max (max (max a b) c) d) e) f = max a (max b (max c (max d (max e f)))) := by omega
 
 theorem taskOK_rebuildX (t : Task) (h : TaskOK' t) : TaskOK' (rebuildX t) := by
-  have hcb := rebuildX_claimedBy t h
+  have hcb := rebuildX_claimedBy t
   have hupd := rebuildX_updatedAt t h
   have hpos : t.updatedAt ≠ 0 := by
     have hu := h.updated
